@@ -50,10 +50,16 @@ def go_env():
 
 
 _built = {}
+_build_lock = __import__("threading").Lock()
 
 
 def build_harness(race=False):
     """(Re)build the harness test binary against the current working tree of /repo."""
+    with _build_lock:
+        return _build_harness(race)
+
+
+def _build_harness(race=False):
     key = "race" if race else "norace"
     if key in _built:
         return _built[key]
